@@ -123,6 +123,18 @@ def cases(tier, seed):
                     'verbose': rng.choice([2, 2, 3, 1]),
                     'yseed': rng.randrange(1 << 30),
                     'wseed': rng.randrange(1 << 30)})
+    # a layer whose subprocess cannot be started (EAGAIN / ENOMEM on every
+    # attempt): the other layers' blocks are printed all the same, complete
+    # and in order
+    for _ in range(10 if tier == 'quick' else 120):
+        idx += 1
+        k = rng.randint(3, 4)
+        out.append({'idx': idx, 'spawnfail': True, 'k': k,
+                    'N': rng.randint(2, k), 'perm': list(range(k)),
+                    'hold': 'none', 'fail': rng.randint(1, k - 1),
+                    'verbose': rng.randint(0, 3),
+                    'yseed': rng.randrange(1 << 30),
+                    'wseed': rng.randrange(1 << 30)})
     # a layer whose test leaves a helper process behind that keeps the
     # child's stderr open for a while after the child itself has gone
     for _ in range(2 if tier == 'quick' else 8):
@@ -142,6 +154,86 @@ BRACKET_RE = re.compile(r'\[Parallel tests running in [^\n]*:\n  [^\]]*\]\n?')
 
 def strip_keepalive(text):
     return BRACKET_RE.sub('', text)
+
+
+def run_spawnfail(case):
+    """-j N with one layer whose subprocess cannot be started."""
+    import common
+    import gen
+    import runcase
+    import vworld
+    rng = random.Random(case['wseed'])
+    prefix = 'vwj%d' % case['idx']
+    k, N, fail = case['k'], case['N'], case['fail']
+    layers = [{'name': 'L%d' % i, 'kind': 'class', 'bases': [],
+               'hooks': {'setUp': 'ok', 'tearDown': 'ok'}} for i in range(k)]
+    tokens = {}
+    tbl = {}
+    for i in range(k):
+        tests = []
+        for j in range(rng.randint(1, 3)):
+            tok = 'TOK-L%d-%d-%d' % (i, j, rng.randrange(10 ** 6))
+            tokens.setdefault('L%d' % i, []).append(tok)
+            tests.append({'name': 'test_%d' % j,
+                          'kind': 'fail' if rng.random() < 0.3 else 'pass',
+                          'actions': [{'ph': 'body', 'do': 'write',
+                                       'stream': 'stdout',
+                                       'text': tok + '\n', 'flush': True}]})
+        tbl['L%d' % i] = tests
+    spec = gen.simple_world(prefix, layers, tbl)
+    lm = spec['layers_module']
+    viol = []
+    counters = {'spawn_failure_runs': 1}
+
+    def V(rule, mech, **d):
+        d.update(k=k, N=N, fail=fail, verbose=case['verbose'])
+        if len(viol) < 6:
+            viol.append({'rule': rule, 'mech': mech, 'detail': d})
+
+    w = common.run_world(spec, None, {'processes': N,
+                                      'verbose': case['verbose']},
+                         env_extra={'ZTR_SPAWN_FAIL': 'layer#%d:%s' % (
+                             fail, rng.choice(['EAGAIN', 'ENOMEM']))})
+    if w.raised is not None:
+        V('parallel-run-aborted', 'run-raised',
+          tb=(w.raised_tb or '')[-600:])
+        return {'viol': viol, 'evals': 1, 'counters': counters}
+    failed = [e.get('layer') for e in w.events if e['k'] == 'spawn.fail']
+    if not failed:
+        return {'inconclusive': 'no spawn failure was injected'}
+    dead = {model_short for model_short in
+            (f[len(lm) + 1:] for f in set(failed))}
+    info = runcase.parse_output(strip_keepalive(w.out))
+    hdrs = [l['name'][len(lm) + 1:] for l in info['layers']
+            if l['name'].startswith(lm + '.')]
+    want = ['L%d' % i for i in range(k) if 'L%d' % i not in dead]
+    got = [h for h in hdrs if h not in dead]
+    if got != want:
+        V('layer-blocks-not-in-sequential-order', 'par-block-order-spawnfail',
+          got=hdrs, want=want, dead=sorted(dead))
+    for blk in info['layers']:
+        short = blk['name'][len(lm) + 1:]
+        body = '\n'.join(blk['lines'])
+        for t in tokens.get(short, []):
+            counters['tokens_checked'] = counters.get('tokens_checked', 0) + 1
+            if t not in body:
+                V('own-token-missing-from-block', 'par-block-content',
+                  layer=short, token=t)
+    for name, toks in tokens.items():
+        if name in dead:
+            continue
+        for t in toks:
+            if w.out.count(t) != 1:
+                V('token-not-exactly-once-in-output', 'par-token-count',
+                  token=t, count=w.out.count(t), layer=name)
+    if w.verdict is not True:
+        V('verdict-differs-from-sequential', 'par-verdict-spawnfail',
+          verdict=w.verdict)
+    counters['spawn_failure_runs_judged'] = 1
+    return {'viol': viol, 'evals': 1, 'counters': counters,
+            'sig': ['spawnfail', k, N, fail, case['verbose']],
+            'sample': {'spawnfail': True, 'k': k, 'N': N, 'fail': fail,
+                       'headers': hdrs}}
 
 
 def run_chatty(case):
@@ -264,6 +356,8 @@ def run_helper(case):
 def run_case(case):
     if case.get('chatty'):
         return run_chatty(case)
+    if case.get('spawnfail'):
+        return run_spawnfail(case)
     if case.get('helper'):
         return run_helper(case)
     import common
